@@ -690,7 +690,6 @@ fn check_handler(c: &HCase, info: &mut CaseInfo) -> CheckResult {
             ""
         );
         client_roundtrip(c, &author.client, seal_ch, &peer.client, open_ch, label, true)?;
-        // the author secret is consumed: the seal end cannot be derived a second time
         info.nontrivial();
         return Ok(());
     }
@@ -777,7 +776,7 @@ pub fn run(ctx: &Ctx) -> ! {
          derived and every message opened (no change) resp. rejected (change), or a same-device tuple refused by all three \
          derivations",
         case,
-        ctx.pick(6_000, 200_000),
+        ctx.pick(6_000, 120_000),
         check_uni,
     );
     rep.explore(
@@ -790,7 +789,7 @@ pub fn run(ctx: &Ctx) -> ! {
          `created`); non-trivial = keys loaded and all messages opened with label+seq (no change) resp. rejected (change), or \
          the role violation answered with AuthorMustBeSealer / a useless key",
         hcase,
-        ctx.pick(3_000, 100_000),
+        ctx.pick(3_000, 60_000),
         check_handler,
     );
     rep.finish()
